@@ -191,3 +191,39 @@ class Sem:
 
     def program(self, nfun=2, depth=2):
         return "\n".join(PRELUDE + [self.function(f"fn{i}", depth) for i in range(nfun)]) + "\n"
+
+
+# hand-written, self-contained, compilable programs: constructs whose meaning depends on details the random generator
+# reaches rarely (unnamed bit-fields, ?: grouping, for-init lists, casts as operands, comma expressions in brackets, ...)
+SEMZOO = [
+    # unnamed bit-fields decide the layout
+    "struct S { unsigned a:3; unsigned :5; unsigned b:4; unsigned :0; unsigned c:2; } s = {1, 2, 3};\nint f(void){ return s.b + s.c + (int)sizeof s; }\nstruct T { char c; int :0; char d; int : 7; short e; } t = {1, 2, 3};\nint g(void){ return t.d + t.e; }",
+    # conditional operator grouping
+    "int g1(int a,int b,int c,int d,int e){ return (a?b:c)?d:e; }\nint g2(int a,int b,int c,int d,int e){ return a?b:(c?d:e); }\nint g3(int a,int b,int c,int d,int e){ return a?(b?c:d):e; }\nint g4(int a,int b,int c){ return (a, b) ? c : (b, a); }\nint g5(int a,int b,int c){ int x; x = a ? b : c; return (x = a) ? b : c; }",
+    # for-init declarations with several declarators of one base type
+    "int h1(int n){ int s = 0; for (unsigned int i = 0, end = n; i < end; i++) s += i; return s; }\nint h2(int n){ int s = 0; for (long long index = 7, x = 2; index < n; index += x) s++; return s; }\nint h3(int n){ int x = 3; for (unsigned int i = 0, index = 7; i < index; i++) x++; return x; }",
+    # casts as operands
+    "int c1(double d, int i){ return (int)d * i + (int)(d + i) - (char)i / (short)d; }\nint c2(int *p, long l){ return *(int *)l + (int)(long)p + -(int)l + !(int)l + ~(int)l; }\nlong c3(int i){ return (long)i << 3 | (long)(i >> 1); }\nint c4(char *p){ return (int)*p++ + (int)p[1] + (int)-*p; }",
+    # unary / postfix mixtures
+    "int u1(int *p, int i){ return *p++ + (*p)++ + ++*p + *++p - -i - - -i + +i - +-i; }\nint u2(int a, int b){ return a - -b + a + +b - (a-- - --b) + (a++ + ++b); }\nint u3(int a){ return !a + !!a + ~a + ~~a + -~a + ~-a; }\nint u4(int **pp){ return **pp + *pp[0] + (*pp)[1] + *(*pp + 1) + **(pp + 1); }",
+    # precedence of every binary operator pair that matters
+    "int b1(int a,int b,int c){ return a - (b - c) + (a - b) - c + a / (b / c) + a / b / c + a % (b * c) + a * (b % c); }\nint b2(int a,int b,int c){ return (a & b) == c | a & (b == c) | (a | b) ^ c | a ^ (b & c) | (a << b) + c | a << (b + c); }\nint b3(int a,int b,int c){ return (a || b) && c || a && (b || c) || (a < b) == (b < c) || a < (b == c); }\nint b4(int a,int b,int c){ return (a, b, c) + (a = b, c) + (a += b -= c); }",
+    # member access, arrays of structs, function pointers
+    "struct P { int x, y; struct P *next; int arr[3]; }; struct P ps[2], *pp = ps;\nint m1(void){ return (*pp).x + pp->y + (*pp->next).x + pp->next->arr[1] + (&ps[1])->y + (*(pp + 1)).x + ps[0].arr[2]; }\nint (*fp)(int); int (*fpa[2])(int); int (*(*fpp)(void))(int);\nint m2(int i){ return fp(i) + (*fp)(i) + fpa[1](i) + (*fpa[0])(i) + fpp()(i) + (*(*fpp)())(i); }",
+    # designated initialisers, compound literals, strings
+    "struct Q { int a; int b[3]; struct { int c, d; } in; }; struct Q q1 = { .b = {1, [2] = 3}, .in.d = 4, .a = 5 }, q2 = { 1, {2, 3}, {4} };\nint ar[] = { [3] = 1, [1] = 2, 7, [0] = 9 };\nchar s1[] = \"a\" \"b\", s2[5] = \"xy\", *s3 = \"\\x41\\101\\n\";\nint d1(void){ return ((struct Q){ .a = 1 }).a + ((int[]){1, 2, 3})[1] + sizeof ((char[]){\"abc\"}) + q1.in.d + ar[2] + s1[1] + s2[3]; }",
+    # enumerators, sizeof, alignment
+    "enum E { A = 1, B = A << 2, C = (A + 2), D = sizeof(int) > 2 ? 3 : 4, F };\n_Alignas(16) int al1; _Alignas(double) char al2; struct AL { char c; _Alignas(8) int i; }; struct AL al3;\nint e1(void){ return A + B + C + D + F + sizeof(enum E) + _Alignof(struct AL) + sizeof al3 + sizeof(int[B]) + sizeof(int (*)[3]); }",
+    # switch / case ranges of statements, labels, goto, do-while
+    "int w1(int x){ int r = 0; switch (x) { case 1: case 2: r = 1; case 3: { r += 2; break; } default: r = 4; case -1: r++; } return r; }\nint w2(int n){ int i = 0; again: if (i < n) { i++; goto again; } do i--; while (i > 0 && n--); while (n) { if (n & 1) break; else n >>= 1; continue; } return i; }\nint w3(int a, int b){ if (a) if (b) return 1; else return 2; else if (b) return 3; return 4; }",
+    # qualifiers, storage classes, pointers to pointers, arrays of pointers
+    "static const volatile int cv = 3; extern int ex; static int *const cp = 0; const int *pc; int *const *volatile cpv;\nint *ap[3]; int (*pa)[3]; int **ppi; int *(*pfa[2])(int *, char **);\nint q1(void){ return cv + (cp != 0) + (pc == 0) + sizeof ap + sizeof pa + sizeof *pa + sizeof pfa; }\nstatic inline int q2(register int r){ auto int a = r; return a; }\n_Noreturn void die(void); _Thread_local int tl = 1; static _Thread_local int stl;",
+    # K&R definition, variadic, array parameters
+    "int k1(a, b) int a; char *b; { return a + *b; }\nint k2(int n, ...);\nint k3(int a[static 3], int b[const], int n, int c[n][n]){ return a[0] + b[1] + c[1][1]; }\nint k4(int (*f)(int, ...), int x){ return f(x, 1, 2); }",
+    # comma expressions in every bracketed position
+    "int z1(int n){ int a[(n, 3)]; a[(n, 0)] = (n, 1); return a[0] + sizeof(int[(n, 2)]); }\nint k(int, int, int);\nint z2(int x){ switch (x) { case (1 + 2): return 1; } return (x, x + 1); }\nint z3(int x, int y){ return k(x, (y, x), y) + k((x, y), x, (x = y, y)); }",
+    # integer / floating / character constants
+    "long long n1 = 1u + 1ul + 1lu + 1ull + 1LL + 0x1UL + 0b101 + 017 + 0 + 0x0;\ndouble n2 = 0x1p-3 + 0x.8p1 + 1.5f + 1.e3L + .5 + 1e+3 + 1E-2f;\nint n3 = 'a' + '\\n' + '\\x41' + '\\377' + L'a' + '\\'' + '\\\\' + '\"' + '\\0' + 'ab';\nint n4(void){ return -1 - -1 + - -1 + 1 - 1u + -0x10 + -010 + (1.0 > 0); }",
+    # typedef scoping
+    "typedef int T; typedef T *PT; typedef T AT[3]; typedef T FT(T);\nT t1(T a, PT p, AT arr, FT *f){ T T2 = a; { typedef char T; T c = 1; T2 += c + sizeof(T); } return T2 + *p + arr[0] + f(a) + sizeof(T); }\nint t2(void){ int T = 2; return T * T; }\nstruct TS { T T; T u; }; T t3(struct TS s){ return s.T + s.u; }",
+]
